@@ -8,11 +8,13 @@ enabled event (each on its own re-built copy), checks the invariants / the
 reference model on the result and returns a canonical key of the successor.
 States are de-duplicated on that key.
 """
+import time
 
 
 def bfs(ctx, expand_name, cfg, max_depth, max_states=None, label=None):
     """returns dict(states, transitions, depth, fixpoint, capped)"""
     label = label or str(cfg)
+    t_start = time.time()
     seen = {"<init>"}
     frontier = [[]]
     depth = 0
@@ -48,4 +50,5 @@ def bfs(ctx, expand_name, cfg, max_depth, max_states=None, label=None):
     if sample_hist is not None:
         ctx.sample({"cfg": cfg, "history": sample_hist}, limit=6)
     return {"states": len(seen), "transitions": transitions, "depth": depth,
-            "fixpoint": not frontier, "capped": capped}
+            "fixpoint": not frontier, "capped": capped,
+            "wall_s": round(time.time() - t_start, 1)}
